@@ -214,3 +214,18 @@ def with_timeout(fn, seconds=3.0):
     finally:
         signal.setitimer(signal.ITIMER_REAL, 0)
         signal.signal(signal.SIGALRM, old)
+
+
+def parser_rejects(text, timeout=3.0):
+    """True if the vendored parser raises ParseError on text (the analyser then asks without analysing anything).
+    Decided by calling the parser, never by the wording of a reason."""
+    from dippy.vendor.parable import parse, ParseError
+    try:
+        with_timeout(lambda: parse(text.strip()), timeout)
+        return False
+    except ParseError:
+        return True
+    except Timeout:
+        return False
+    except Exception:
+        return False
